@@ -34,3 +34,29 @@ fn("event/attr.py::_ClsLevelDispatch.update_subclass", cls="_ClsLevelDispatch", 
             ANC_DONE.format(D=D, MRO=MRO, N=f"len({MRO})"),
             OTHERS, PREFIX, SOUND],
    modifies=["contents(self._clslevel)", f"contents({D})"], harness="events.update_subclass")
+
+# ---- _ClsLevelDispatch.remove: the listener leaves the collection of the target and of every subclass that has one
+W = "pure_walk_subclasses(event_key.dispatch_target)"
+REP2 = "forall(lambda a, b: implies(dhas(self._clslevel, a) and dhas(self._clslevel, b) and a is not b, dget(self._clslevel, a) is not dget(self._clslevel, b)))"
+cls("EKeyC", fields={"_listen_fn": "v", "dispatch_target": "Klass"})
+WJ = W + "[j]"
+CJ = "dget(self._clslevel, " + WJ + ")"
+FN_ = "event_key._listen_fn"
+CUT = "old(contents(CJ))[:index(old(contents(CJ)), FN_)] + old(contents(CJ))[index(old(contents(CJ)), FN_) + 1:]".replace("CJ", CJ).replace("FN_", FN_)
+fn("event/attr.py::_ClsLevelDispatch.remove", cls="_ClsLevelDispatch", props=["C28"], returns="none",
+   types={"event_key": "EKeyC", "target": "Klass", "cls": "Klass", "ret:walk_subclasses": "tupleval", "elems:util.walk_subclasses(target)": "Klass",
+          "expr:" + WJ: "Klass", "values:self._clslevel": "deque"},
+   callees={"util.walk_subclasses": "pure:walk_subclasses", "registry._removed_from_collection": "noop"},
+   requires=[REP2, "no_dups(" + W + ")",
+             # registered on every class of the walk that has a collection (what _do_insert_or_append / update_subclass establish)
+             "all(implies(dhas(self._clslevel, WJ), FN_ in contents(CJ)) for j in range(len(W)))".replace("WJ", WJ).replace("CJ", CJ).replace("FN_", FN_).replace("W)", W + ")")],
+   invariant={0: ["all(implies(dhas(self._clslevel, WJ), contents(CJ) == CUT) for j in range(_i))".replace("WJ", WJ).replace("CUT", CUT).replace("CJ", CJ),
+                  "all(implies(dhas(self._clslevel, WJ), contents(CJ) == old(contents(CJ))) for j in range(_i, len(W)))".replace("WJ", WJ).replace("CJ", CJ).replace("W)", W + ")"),
+                  "forall(lambda q: implies(dhas(self._clslevel, q) and not (q in " + W + "), contents(dget(self._clslevel, q)) == old(contents(dget(self._clslevel, q)))))",
+                  "keys(self._clslevel) == old(keys(self._clslevel))", "forall(lambda q: dget(self._clslevel, q) is old(dget(self._clslevel, q)))"]},
+   loop_modifies={0: ["any.contents"]},
+   ensures=["all(implies(dhas(self._clslevel, WJ), contents(CJ) == CUT) for j in range(len(W)))".replace("WJ", WJ).replace("CUT", CUT).replace("CJ", CJ).replace("W)", W + ")"),
+            # no other class's collection is touched
+            "forall(lambda q: implies(dhas(self._clslevel, q) and not (q in " + W + "), contents(dget(self._clslevel, q)) == old(contents(dget(self._clslevel, q)))))",
+            "keys(self._clslevel) == old(keys(self._clslevel))"],
+   modifies=["any.contents"])
